@@ -309,7 +309,7 @@ def run(chk, prog, tier):
     # guarded decrease) - the premise of "negative infiltration only on the day bunds are removed" and of "nothing ponded => zero out"
     from .c03 import rule_b as ponding_without_bunds
     from ._alias import Alias
-    ponding_without_bunds(Alias(chk, "C03.b", "C02.f"), prog)
+    ponding_without_bunds(Alias(chk, {"C03.b": "C02.f", "C03.g": "C02.f"}), prog)
     # ---- C02.e thickness agreement inside infiltration (T-THICK, shared with C01.f): the water backed up to the surface becomes runoff; it
     # is the water actually taken out of a compartment only if the content difference is converted with that compartment's own thickness
     from . import _thick
